@@ -226,6 +226,22 @@ def run_stream(req, stream, cuts, close_after=None):
                         viol.append(('error-mapping', 'code-%s' % ('1..8' if want else 'other'),
                                      'reply code %d -> %s(code=%r), reference %s' %
                                      (code, type(e).__name__, getattr(e, 'code', None), want or 'SocksError(code=%d)' % code)))
+        # an observer that asks only now (e.g. an endpoint whose connect() is evaluated after the exchange is over) must be told
+        # the same thing: the outcome is decided once
+        if n == 1 and ep.proto is not None and hasattr(ep.proto, 'when_done'):
+            late = DRec(ep.proto.when_done())
+            if len(late.fires) != 1:
+                viol.append(('late-observer-fired-%d-times' % len(late.fires), feat_base, 'when_done() asked after the end'))
+            else:
+                k1, v1 = rec.fires[0]
+                k2, v2 = late.fires[0]
+                same = (k1 == k2) and ((k1 == 'ok') or type(v1.value) is type(v2.value))
+                if req != 'CONNECT' and k1 == 'ok' and k2 == 'ok' and v1 != v2:
+                    same = False
+                if not same:
+                    viol.append(('outcome-changed-afterwards', feat_base + '/' + final[0],
+                                 'the attempt was reported as %r; when_done() asked after the connection ended reports %r'
+                                 % (rec.summary()[:2], late.summary()[:2])))
         # application writes on the same connection, after the request
         if fac.protos:
             data = wire.value()
